@@ -121,7 +121,17 @@ def timer_lifecycle(P, R, cl):
                 # the announce handler itself, or a helper that only it calls
                 callers = {c.fn.key for c in P.callers(f, may=True)}
                 where = f in ann or (bool(callers) and callers <= {a.key for a in ann})
-                ok = where and (rhs.get('callee') == 'event_new' or const_of(rhs) == 0)
+                def leafs(v, depth=0):
+                    # handed back by a (folded) helper: `req->timeout = make_timer(req, seconds)`, possibly through locals
+                    if is_var(v) and v.get('sc') == 'local' and depth < 4:
+                        ds = [(d.ev.get('rhs') if d.ev['k'] == 'store' else d.ev.get('init')) or {} for d in f.local_defs(v['name'])]
+                        out = []
+                        for x in ds:
+                            out += leafs(x, depth + 1)
+                        return out or [v]
+                    return [v]
+                vals = leafs(rhs)
+                ok = where and all(v.get('callee') == 'event_new' or const_of(v) == 0 for v in vals)
                 R.ob('C10.WMC.2', ok, s, 'a request\'s timer is created (or left NULL) only when the request is announced (%s)' % sx(rhs), key='timer-store')
         for s in f.calls():
             if s.ev.get('callee') in ('event_free', 'event_del') and s.ev['args'] and on_path(s.ev['args'][0], 'timeout', core.REQ_REC):
@@ -133,11 +143,22 @@ def timer_lifecycle(P, R, cl):
         for s in f.calls():
             if s.ev.get('callee') in ('event_base_once', 'event_new', 'event_assign') and any(isinstance(a, dict) and a.get('t') == uar.REQ_T for a in s.ev['args']):
                 n += 1
+                carriers = set()
+                grew = True
+                while grew:
+                    grew = False
+                    for t in f.stores():
+                        if t.ev['k'] == 'store' and is_var(t.ev.get('lhs')) and t.ev['lhs'].get('sc') == 'local' and t.ev['lhs']['name'] not in carriers:
+                            rv_ = t.ev.get('rhs') or {}
+                            if any(x.get('k') == 'callref' and x.get('ev') == s.ev.get('id') for x in walk(rv_)) or (is_var(rv_) and rv_['name'] in carriers):
+                                carriers.add(t.ev['lhs']['name'])
+                                grew = True
                 owned = s.ev['callee'] == 'event_new' and any(t.ev['k'] == 'store' and is_field(t.ev['lhs'], 'timeout', core.REQ_REC) and
-                                                              any(x.get('k') == 'callref' and x.get('ev') == s.ev.get('id') for x in walk(t.ev.get('rhs') or {})) for t in f.stores())
+                                                              (any(x.get('k') == 'callref' and x.get('ev') == s.ev.get('id') for x in walk(t.ev.get('rhs') or {})) or
+                                                               (is_var(t.ev.get('rhs')) and t.ev['rhs']['name'] in carriers)) for t in f.stores())
                 R.ob('C10.WMC.2', owned, s, 'an event whose callback gets a request is kept in that request, so that it is freed with it (%s in %s)' % (s.ev['callee'], f.name), key='timer-owned:%s' % s.ev['callee'])
     # the timer cannot outlive the request through another pointer: only stored in the request
-    R.floor('C10.WMC.2', 4)
+    R.floor('C10.WMC.2', 3)
 
 
 def stats_binding(P, R):
@@ -284,6 +305,25 @@ def retire_wiring(P, R, rule='C10.WIRE.6'):
     R.floor(rule, 4)
 
 
+def announced_ids_nameable(P, R, rule='C10.GRD.2'):
+    """"In use" counts what the server announced and has not withdrawn - which presupposes that it CAN withdraw it: every
+    later message about id -1 is read as "no client", so a request filed under -1 could never be removed again.  The
+    announce handler puts a request into the table only where the id is known not to be -1 (non-negative)."""
+    rd, disp = core.reader_dispatch(P)
+    ann = [h for (s, h, vs) in disp if vs and ord('C') in vs]
+    n = 0
+    for h in ann:
+        idp = h.params[0] if h.params else None
+        for s in h.calls('set_insert'):
+            if not (s.ev['args'] and is_var(s.ev['args'][0], uar.TABLE)):
+                continue
+            gs = h.guards(s.bid)
+            ok = any(is_var(g[0], idp) and ((g[1] == '>=' and (const_of(g[2]) or 0) >= 0 and const_of(g[2]) is not None) or (g[1] == '>' and const_of(g[2]) is not None and const_of(g[2]) >= -1) or (g[1] == '!=' and const_of(g[2]) == -1)) for g in gs)
+            n += 1
+            R.ob(rule, ok, s, 'a request is filed only under an id that later messages can name (%s is known not to be -1 at the insertion)' % idp, key='nameable-id')
+    R.floor(rule, 1, 'insertions into the request table')
+
+
 def module_records_are_flat(P, R, rule='C10.OWN.1'):
     """A request's per-module records are released by the request set's own cleanup - when the request is disposed, and
     also when a re-announced id replaces it or the table is cleared at exit, none of which calls into the modules.  A
@@ -325,6 +365,7 @@ def module_records_are_flat(P, R, rule='C10.OWN.1'):
 
 def run(P, R, tier):
     module_records_are_flat(P, R)
+    announced_ids_nameable(P, R)
     # withdrawals and registrations must find the request they are about
     from .c08 import junk_inert
     junk_inert(P, R, 'C10.GRD.1')
